@@ -248,7 +248,7 @@ def run_one(name, spec, krepo, tier):
             r = KResult(name, spec)
             r.status, r.infra, r.n_checks, r.wall_s, r.cmd = d['status'], d['infra'], d['n_checks'], d['wall_s'], d['cmd']
             r.trusted = d['trusted']
-            r.failures = [KFailure(f['obligation'], f['message'], f['rendered']) for f in d['failures']]
+            r.failures = [KFailure(f['obligation'], f['message'], f['rendered'], f.get('replay_test')) for f in d['failures']]
             r.cached = True
             return r
         except Exception:
@@ -257,7 +257,7 @@ def run_one(name, spec, krepo, tier):
     if r.status in ('ok', 'failed'):
         os.makedirs(cdir, exist_ok=True)
         json.dump({'status': r.status, 'infra': r.infra, 'n_checks': r.n_checks, 'wall_s': r.wall_s, 'cmd': r.cmd, 'trusted': r.trusted,
-                   'failures': [{'obligation': f.obligation, 'message': f.message, 'rendered': f.rendered} for f in r.failures]}, open(cfile, 'w'))
+                   'failures': [{'obligation': f.obligation, 'message': f.message, 'rendered': f.rendered, 'replay_test': f.replay_test} for f in r.failures]}, open(cfile, 'w'))
     return r
 
 
@@ -312,10 +312,32 @@ def _run_one(name, spec, krepo, tier):
         if not fails or 'run out of memory' in out or 'CBMC failed' in out:
             r.status, r.infra = 'infra', 'CBMC did not finish (out of memory / crashed): ' + ' | '.join(out.strip().split('\n')[-6:])
             return r
+        # Kani's counterexample: the same harness once more with concrete playback; the values it
+        # prints are the bytes of every kani::any() of the harness, in order, that drive the real
+        # code (scratch copy, stubs as listed) into the failed check
+        playback = None
+        try:
+            pcmd = cmd[:cmd.index('--harness')] + ['-Z', 'concrete-playback', '--concrete-playback=print'] + cmd[cmd.index('--harness'):]
+            pp = subprocess.Popen(['bash', '-c', 'ulimit -v %d; exec "$@"' % mem_kb, 'kani'] + pcmd, cwd=krepo, stdout=subprocess.PIPE, stderr=subprocess.PIPE, text=True, env=env, start_new_session=True)
+            try:
+                pso, pse = pp.communicate(timeout=timeout)
+                tests = re.findall(r'```\n(.*?)```', pso, re.S)
+                if tests:
+                    playback = {'how': 'cargo kani ... -Z concrete-playback --concrete-playback=print --harness %s (second run of the failed harness)' % spec['harness'],
+                                'meaning': 'concrete_vals are the little-endian bytes of each kani::any() of the harness, in call order; with them the real code of the scratch crate reaches the failed check',
+                                'tests': [t.strip() for t in tests[:3]]}
+            except subprocess.TimeoutExpired:
+                try:
+                    os.killpg(pp.pid, signal.SIGKILL)
+                except Exception:
+                    pass
+                pp.communicate()
+        except Exception:
+            playback = None
         for f in fails:
             if 'unwinding assertion' in f:
                 continue
-            r.failures.append(KFailure('kani::%s::%s' % (name, _ob_for(f, spec)), f.strip(), tail))
+            r.failures.append(KFailure('kani::%s::%s' % (name, _ob_for(f, spec)), f.strip(), tail, replay_test=playback))
         r.checks_failed = fails
     else:
         r.status = 'infra'
